@@ -267,3 +267,39 @@ rle_arbitrary!(c19_rle_arbitrary_len1_w8, 1, 8);
 rle_arbitrary!(c19_rle_arbitrary_len2_w8, 2, 8);
 // @h name=c19_rle_arbitrary_len1_w0 props=C19 tier=thorough
 rle_arbitrary!(c19_rle_arbitrary_len1_w0, 1, 0);
+// @h name=c10_rle_repeated_n3k0l3 props=C10 tier=thorough
+rle_repeated!(c10_rle_repeated_n3k0l3, 3, 0, 3);
+// @h name=c10_rle_repeated_n3k0l4 props=C10 tier=thorough
+rle_repeated!(c10_rle_repeated_n3k0l4, 3, 0, 4);
+// @h name=c10_rle_repeated_n3k1l3 props=C10 tier=quick
+rle_repeated!(c10_rle_repeated_n3k1l3, 3, 1, 3);
+// @h name=c10_rle_repeated_n3k1l4 props=C10 tier=thorough
+rle_repeated!(c10_rle_repeated_n3k1l4, 3, 1, 4);
+// @h name=c10_rle_repeated_n3k2l3 props=C10 tier=thorough
+rle_repeated!(c10_rle_repeated_n3k2l3, 3, 2, 3);
+// @h name=c10_rle_repeated_n3k2l4 props=C10 tier=quick
+rle_repeated!(c10_rle_repeated_n3k2l4, 3, 2, 4);
+// @h name=c10_rle_repeated_n3k3l3 props=C10 tier=thorough
+rle_repeated!(c10_rle_repeated_n3k3l3, 3, 3, 3);
+// @h name=c10_rle_repeated_n3k3l4 props=C10 tier=thorough
+rle_repeated!(c10_rle_repeated_n3k3l4, 3, 3, 4);
+// @h name=c10_rle_repeated_n2k1l2 props=C10 tier=quick
+rle_repeated!(c10_rle_repeated_n2k1l2, 2, 1, 2);
+// @h name=c10_rle_repeated_n2k1l3 props=C10 tier=thorough
+rle_repeated!(c10_rle_repeated_n2k1l3, 2, 1, 3);
+// @h name=c10_rle_repeated_n1k0l1 props=C10 tier=thorough
+rle_repeated!(c10_rle_repeated_n1k0l1, 1, 0, 1);
+// @h name=c10_rle_repeated_n1k0l2 props=C10 tier=thorough
+rle_repeated!(c10_rle_repeated_n1k0l2, 1, 0, 2);
+// @h name=c10_rle_repeated_n1k1l1 props=C10 tier=thorough
+rle_repeated!(c10_rle_repeated_n1k1l1, 1, 1, 1);
+// @h name=c10_rle_repeated_n1k1l2 props=C10 tier=thorough
+rle_repeated!(c10_rle_repeated_n1k1l2, 1, 1, 2);
+// @h name=c10_rle_repeated_n2k0l2 props=C10 tier=thorough
+rle_repeated!(c10_rle_repeated_n2k0l2, 2, 0, 2);
+// @h name=c10_rle_repeated_n2k0l3 props=C10 tier=thorough
+rle_repeated!(c10_rle_repeated_n2k0l3, 2, 0, 3);
+// @h name=c10_rle_repeated_n2k2l2 props=C10 tier=thorough
+rle_repeated!(c10_rle_repeated_n2k2l2, 2, 2, 2);
+// @h name=c10_rle_repeated_n2k2l3 props=C10 tier=thorough
+rle_repeated!(c10_rle_repeated_n2k2l3, 2, 2, 3);
